@@ -31,6 +31,10 @@ def is_real(x):
     return isinstance(x, float) or (is_sym(x) and z3.is_real(x))
 
 
+class Unsupported(Exception):
+    """construct outside the subset / missing contract: the function is out of reach, never silently skipped"""
+
+
 def to_z3(x):
     if is_sym(x):
         return x
@@ -40,6 +44,8 @@ def to_z3(x):
         return z3.IntVal(int(x))
     if isinstance(x, float):
         return z3.RealVal(repr(x))
+    if type(x).__name__ == 'VObj' and x.fields.get('opaque!'):
+        raise Unsupported(f'arithmetic / index use of the unconstrained value {x.name}')
     raise TypeError(f'to_z3: {x!r}')
 
 
@@ -188,7 +194,8 @@ class Piece:
         """element i (0 <= i < len assumed)"""
         if self.kind == 'lit':
             if isinstance(i, int):
-                return self.a[i]
+                # out of range only inside a rope's If-chain, on the arm the guard excludes: value irrelevant
+                return self.a[i] if 0 <= i < len(self.a) else 0
             if len(self.a) == 1:
                 return self.a[0]
             e = z3.IntVal(self.a[-1])
